@@ -36,33 +36,65 @@ THEOREMS = [
     (M, "C12.duplicate_group_witness", "F12: '{v}/{locale}' with v='{locale}x': re.error (duplicate group name)"),
     (M, "C12.android_legacy_bplus_roundtrip", "a legacy code in the b+ form comes back: he-Hebr-IL -> b+iw+Hebr+IL -> he-Hebr-IL"),
     (M, "C12.android_limits_witness", "limits outside the locale list: cin -> cid, en-US-x-foo -> en-US"),
+    (M, "C12.android_roundtrip_general", "GENERAL Android round trip: for every locale made of '-'-joined subtags without '-'/'+' inside, none ending in iw/in/ji, none after the first of the form rXX, and exactly two subtags when it starts like ll-XX: _get_android_locale followed by the conversion in Matcher.match gives the locale back (re.sub analysed as left-to-right rewriting, each regex at an arbitrary position)"),
+    (M, "C12.android_match_reports_locale_partial", "a matcher with {android_locale} reports the locale it was bound to: pattern of the class (literals, *, **/, final **, fully bound and repeated variables, {android_locale} and its repetitions), locale bound to a value expanding to a locale of the general lemma, no {locale} group of its own: the filled path is matched, group android_locale = the Android form, and the added entry `locale` = exactly the bound locale"),
+    (M, "C12.android_general_witness", "each hypothesis of the general lemma is forced: cin, zh-Latn-pinyin, xx-Latn-rDE, en-US-x-foo, a+b-c do not come back"),
+    (M, "C12.expand_match_backref_partial", "expand -> match with wildcards AND repeated variables ({l}a/{l}b/*.ftl, l10n/{locale}/x/{locale}.ftl): the later occurrences are back-references, which the engine treats like the literal text of the captured group; same conclusion as expand_match_star_partial, whose class is included"),
+    (M, "C12.filled_path_is_expansion_backref_partial", "the filled path is Pattern.expand of the pattern under 'groups returned by match, then own env', with repeated variables"),
+    (M, "C12.matches_own_expansion_backref_partial", "a fully bound pattern without wildcards, variables may repeat: str(matcher) is matched by the matcher (matches_own_expansion_partial without NoRep, for patterns without {android_locale})"),
+    (M, "C12.mozpath_regex_is_lexer", "for EVERY pattern text the regex mozpath.match caches is the translation of the token list of a plain lexer (characters, `*`, `**/` after '/' or at the start, final `/**`, the pattern `**`), then `(?:/.*)?$`: finditer of the tokenising regex analysed position by position"),
+    (M, "C12.mozpath_match_sound_complete", "mozpath.match is sound AND complete for an inductive glob relation (no regexes in it), for patterns of any length and every newline-free path: it never raises and returns True exactly when the pattern is empty or its token list matches the path or one of its ancestor directories"),
+    (M, "C12.mozpath_empty_pattern", "the empty pattern matches everything"),
+    (M, "C12.mozpath_literal", "a pattern without wildcards matches exactly itself and everything below it (`foo` matches `foo` and `foo/bar`)"),
+    (M, "C12.mozpath_star_one_component", "`*` matches inside one path component only: A*B matches exactly A w B with w free of '/' (and what is below)"),
+    (M, "C12.mozpath_dstar_any_dirs", "`**` matches any number of path components including none: A/**/B matches exactly A/B and A/w/B for every non-empty w (and what is below)"),
+    (M, "C12.mozpath_slash_witness", "trailing slash / normalisation as the code has it: pattern 'foo/' does not match 'foo' but 'foo/' and 'foo//x'; path 'foo/' matches 'foo'; 'foo/*' matches 'foo/a/b' (ancestor rule), 'foo/*.ftl' does not match 'foo/a/b.ftl'"),
+    (M, "C12.mozpath_newline_witness", "the newline-free hypothesis is forced: mozpath.match anchors with `$`, 'foo\\n' matches 'foo'"),
+    (M, "C12.mozpath_adjacent_dstar_witness", "two adjacent `**` are not two directory wildcards: '**/**/b' does not match 'b' (the second is two single stars)"),
+    (M, "C12.mozpath_join_assoc", "mozpath.join is associative (a later absolute part restarts the path)"),
+    (M, "C12.mozpath_split_join", "split and '/'.join are inverse; no component contains '/'"),
+    (M, "C12.mozpath_relpath_join", "relpath(join(base, q), base) = normpath(q) ('' for '.') for a relative q that never climbs above its start, base absolute or relative to the working directory"),
+    (M, "C12.mozpath_relpath_witness", "forced hypotheses: relpath('') raises ValueError; a q that climbs out comes back as its normal form only while the working directory is deep enough"),
+    (M, "C12.mozpath_basedir", "basedir returns one of the bases, which is a path-prefix of the path (or the path itself); None only if no base contains the path; among several the deepest"),
+    (M, "C12.mozpath_commonprefix", "commonprefix (through min and max) is the longest common prefix: a prefix of every path, and every common prefix is a prefix of it"),
+    (M, "C12.mozpath_parts", "dirname/basename/splitext lose nothing: head + basename = path, basename has no '/', dirname is a prefix, root + ext = path, ext is '' or '.' + text without '.' and '/'"),
 ]
 PARTIAL = [
-    "matches_own_expansion_partial excludes patterns in which a variable occurs a second time (back-reference (?P=name)); not a forced "
-    "hypothesis, the general case is covered by the correspondence + oracle only (match_has_prefix has no such restriction)",
-    "android round trip: decided over the shipped table and a curated list, no general lemma (it would have to exclude the two limit families cin / en-US-x-foo)",
-    "mozpath.match: no Lean theorem; model tied by structural regex equality + results, laws checked by an independent glob reference over all patterns of <= 3 segments",
+    "matches_own_expansion_partial excludes repeated variables; matches_own_expansion_backref_partial lifts that for patterns without {android_locale} "
+    "(a variable repeated INSIDE an environment value is still excluded: EnvOK)",
+    "android round trip: general lemma android_roundtrip_general for all subtag lists satisfying AndroidOK (four forced exclusions, android_general_witness), plus the decided "
+    "shipped/curated lists; {android_locale} with a BOUND locale is inside the proved expand->match class (android_match_reports_locale_partial); it is still outside "
+    "sub_roundtrip_* and match_sound_general (the expansion side would need `getAndroidLocale` under the environment `sub` builds); with an unbound locale match_sound is "
+    "false (C11.match_sound_android_witness)",
+    "mozpath.match: proved for every pattern text and every NEWLINE-FREE path (forced: `$` accepts a final newline, mozpath_newline_witness); the glob relation is at token level (what `**` means next to another `**` is what the lexer says: mozpath_adjacent_dstar_witness)",
+    "pure mozpath helpers: normpath, abspath, relpath, rebase, dirname, splitext are modelled and tied by correspondence on odd paths; proved laws: join associativity, split/join, relpath(join(base,q),base) = normpath(q) for non-climbing q, basedir (sound, None, deepest), commonprefix (longest common prefix), parts add up; NOT proved: normpath idempotence, a general relpath/rebase law (both depend on the working directory when a path climbs out: mozpath_relpath_witness); realpath (file system) is outside the model",
     "expand_match_star_partial / filled_path_is_expansion_partial (expand -> match with wildcards) are proved for the restricted class only: "
     "top-level literals, `*`, one `**/` (anything double-star-free after it) or a final `**`, first occurrences of fully bound variables (nested values "
-    "allowed); not proved for repeated variables (back-references), {android_locale}, two double stars (forced: two_starstar_match_witness), unbound (captured) "
+    "allowed; since round 4 also repeated top-level variables = back-references: expand_match_backref_partial); not proved for {android_locale}, a repetition inside an "
+    "environment value, two double stars (forced: two_starstar_match_witness), unbound (captured) "
     "variables next to wildcards (the star separator hypotheses are forced: star_separator_witness, wildcard_value_witness); outside the class the construction-based oracle checks every generated case",
 ]
-LEVEL_TEXT = ("Lean 4 theorems over an executable transliteration of paths/matcher.py, valid for ALL patterns, environments and paths: star "
+LEVEL_TEXT = ("Lean 4 theorems over an executable transliteration of paths/matcher.py and mozpath.py, valid for ALL patterns, environments and paths: star "
               "groups contain no '/', `**/` groups are None or whole directories, a match consumes the whole path, "
               "matched paths start with the prefix, a fully bound pattern matches its own expansion and reports the bound values "
-              "(with wildcards: completeness + uniqueness of the backtracking matcher on well separated fillings of the restricted class), "
-              "expansion terminates for every environment (cycle cutting) except the locale/android_locale cycle; Android round trip "
-              "decided for all shipped + curated locales; model tied to the Python by structural equality of the regex AST and equal "
-              "results; independent glob reference + construction-based oracle incl. deliberately non-matching paths")
-LEVEL_NOTE = ("see partial; trusted: Lean kernel, hand-written model validated by correspondence, Rx engine = CPython re on the audited subset; "
-              "forced hypotheses with negation witnesses: AndroidSafe (locale/android_locale cycle), regex compiles / DistinctGroupNames (F12), FirstNodeOK (F11); "
+              "(with wildcards, repeated variables and {android_locale}: completeness + uniqueness of the backtracking matcher on well separated fillings of the restricted class), "
+              "expansion terminates for every environment (cycle cutting) except the locale/android_locale cycle; Android round trip proved in general "
+              "(all subtag lists outside four forced exclusions) and decided for all shipped + curated locales; mozpath.match proved sound and complete for an "
+              "inductive glob relation for every pattern text (newline-free paths), laws of the pure mozpath helpers; model tied to the Python by structural "
+              "equality of the regex AST and equal results (incl. odd paths, operation sequences on matcher objects); independent references + "
+              "construction-based oracle incl. deliberately non-matching paths")
+LEVEL_NOTE = ("see partial; trusted: Lean kernel, hand-written models validated by correspondence, Rx engine = CPython re on the audited subset; "
+              "forced hypotheses with negation witnesses: AndroidSafe (locale/android_locale cycle), regex compiles / DistinctGroupNames (F12), FirstNodeOK (F11), "
+              "newline-free path (mozpath `$`), the four exclusions of the Android lemma, non-climbing path (relpath); "
               "the Matcher-environment shape (parsed unrooted patterns) always holds for Matcher(...)")
 TECHNIQUE = E.TECHNIQUE
 TRUSTED = E.TRUSTED + [
     "model of mozpath.match in the same file (tied by the moz.match correspondence incl. structural equality of the cached regex)",
+    "hand-written model CLModel/Paths/MozPath.lean of the posixpath functions behind the mozpath helpers (tied by the c12.mp.* streams on odd paths under three working directories)",
 ]
 ASSUMPTIONS = E.ASSUMPTIONS + [
-    "paths are normalised (no empty segments, newline only as the deliberately appended last character)",
+    "paths are normalised (no empty segments, newline only as the deliberately appended last character) in the matcher streams; the mozpath helper streams use arbitrary odd paths",
+    "POSIX (os.sep == '/', os.altsep is None): the two replace branches of mozpath.normsep are dead; realpath (symbolic links) is outside the model",
 ]
 
 classify = E.classify
@@ -213,6 +245,75 @@ def run_android(ctx, out):
         out.samples.append({"class": "android", "he-IL": G.ref_android("he-IL"), "sr-Latn": G.ref_android("sr-Latn")})
 
 
+
+# ------------------------------------------------------------------ the class of the general Android lemma
+def android_ok(parts):
+    """the hypotheses of C12.android_roundtrip_general (C12A.AndroidOK), stated on the subtags"""
+    import re as _r
+    if not parts or any(("-" in p or "+" in p) for p in parts):
+        return "chars"
+    if any(p.endswith(("iw", "in", "ji")) for p in parts):
+        return "legacy-end"
+    if any(_r.match(r"r[A-Z]{2}", p) for p in parts[1:]):
+        return "r-qualifier"
+    if _r.match(r"[a-z]{2,3}-[A-Z]{2}", "-".join(parts)) and len(parts) != 2:
+        return "region-with-more"
+    return None
+
+
+def gen_subtags(rng):
+    import string
+    low, up, dig = string.ascii_lowercase, string.ascii_uppercase, string.digits
+
+    def word(alpha, lo, hi):
+        return "".join(rng.choice(alpha) for _ in range(rng.randrange(lo, hi + 1)))
+    parts = [rng.choice([word(low, 2, 3), word(low, 2, 3), word(low, 4, 8), rng.choice(["he", "id", "yi", "iw", "cin", "bin", "shi"])])]
+    for _ in range(rng.choice([0, 0, 1, 1, 2, 3])):
+        r = rng.random()
+        if r < 0.25:
+            parts.append(rng.choice(up) + word(low, 3, 3))          # Script
+        elif r < 0.5:
+            parts.append(word(up, 2, 2))                            # REGION
+        elif r < 0.6:
+            parts.append(word(dig, 3, 3))
+        elif r < 0.8:
+            parts.append(word(low + dig, 5, 8))                     # variant
+        elif r < 0.9:
+            parts.append(rng.choice(["rDE", "rUS", "pinyin", "x", "he", "Rid", "r1A", "rAb"]))
+        else:
+            parts.append(word(low + up + dig, 1, 6))
+    return parts
+
+
+def run_android_general(ctx, out, rng):
+    cases, seen = [], set()
+    for _ in range(ctx.n(1500, 15000)):
+        parts = gen_subtags(rng)
+        loc = "-".join(parts)
+        if loc not in seen:
+            seen.add(loc)
+            cases.append((parts, loc, android_ok(parts)))
+    res = pool.pmap("impl.matcher", "impl_android", [[loc] for _, loc, _ in cases], timeout=5.0)
+    model = C.run_driver_parallel(["pm.android " + C.enc(loc) for _, loc, _ in cases]) if ctx.model_ok else [None] * len(cases)
+    for (parts, loc, why), r, mo in zip(cases, res, model):
+        out.evaluations += 1
+        inp = {"locale": loc, "subtags": parts, "class": "android.general" if why is None else "android.outside." + why}
+        if "r" not in r:
+            out.violations.append({"what": "android conversion of %r raised %s" % (loc, r.get("exc")), "input": inp, "op": "android"})
+            continue
+        r = r["r"]
+        if why is None and r["back"] != loc:
+            out.violations.append({"what": "%r -> %r -> %r: not the same locale (the locale satisfies the hypotheses of the general round-trip lemma)"
+                                   % (loc, r["android"], r["back"]), "input": inp, "op": "android", "finding": None})
+            continue
+        if mo is not None and mo != r["canon"]:
+            out.disagreements.append({"op": "pm.android", "input": inp, "impl": r["canon"], "model": mo})
+        if why is None:
+            out.nontrivial.add(("android.general", loc))
+            out.count("android.general." + ("plain" if len(parts) == 1 else "region" if "-r" in (r["android"] or "") else "bplus"))
+        else:
+            out.count("android.outside.%s.%s" % (why, "roundtrip" if r["back"] == loc else "no-roundtrip"))
+
 # ------------------------------------------------------------------ mozpath.match
 MOZ_SEGS = ["foo", "b.r", "*", "f*", "*.x", "a*b", "**", "q+"]
 
@@ -319,6 +420,189 @@ def run_moz(ctx, out, rng):
         out.count("moz.cases")
 
 
+
+# ------------------------------------------------------------------ round 4: the pure mozpath helpers
+import os as _os
+import posixpath as _pp
+
+from impl import mozgen as MG
+
+
+def _mp_jobs(ctx, rng):
+    """(function, args, cwd) triples over odd paths: empty, '.', '..', doubled slashes, trailing slash, absolute/relative"""
+    quick = ctx.tier == "quick"
+    odd = MG.odd_paths(2 if quick else 3)
+    rnd = [MG.rand_path(rng) for _ in range(ctx.n(600, 6000))]
+    paths = odd + rnd
+    jobs = []
+    for p in paths:
+        for fn in ("normsep", "normpath", "dirname", "basename", "splitext", "split"):
+            jobs.append((fn, [p], None))
+    for p in rng.sample(odd, min(len(odd), ctx.n(150, 800))):
+        # realpath of names that do not exist under "/" (no symbolic link can be involved): the absolute normal form
+        if not p.startswith("//"):            # realpath folds a leading "//" (abspath keeps exactly two slashes)
+            jobs.append(("realpath", [p], "/"))
+    pool_small = MG.odd_paths(1) + ["a/b", "/x/y", "c/", "..", "a//b"]
+    for _ in range(ctx.n(1500, 12000)):
+        k = rng.choice([0, 1, 2, 2, 3, 3, 4])
+        jobs.append(("join", [rng.choice(pool_small) if rng.random() < 0.7 else MG.rand_path(rng, 3) for _ in range(k)], None))
+    for _ in range(ctx.n(1500, 12000)):
+        cwd = rng.choice(MG.CWDS)
+        r = rng.random()
+        if r < 0.45:
+            p, st = MG.rand_path(rng, 4), MG.rand_path(rng, 4)
+        elif r < 0.75:
+            # the instance of the theorem: relpath(join(base, q), base) for a relative q that does not climb out
+            st = rng.choice(["/r", "/r/x/y", "rel/dir", "", ".", "/", "/tmp/../r"])
+            q = MG.clean_rel(rng)
+            p = _pp.join(st, q) if st else q
+            jobs.append(("relpath.law", [p, st, q], cwd))
+            continue
+        else:
+            p, st = rng.choice(paths), rng.choice(["", ".", "..", "/", "a", "/tmp", "a/b/.."])
+        jobs.append(("relpath", [p, st], cwd))
+        if rng.random() < 0.3:
+            jobs.append(("abspath", [p], cwd))
+    for _ in range(ctx.n(1200, 10000)):
+        k = rng.choice([0, 1, 2, 2, 3, 4])
+        stem = MG.rand_path(rng, 3)
+        ps = [stem[:rng.randrange(len(stem) + 1)] + rng.choice(["", "x", "a/b", "/", "é"]) if rng.random() < 0.7 else MG.rand_path(rng, 3)
+              for _ in range(k)]
+        jobs.append(("commonprefix", ps, None))
+    for _ in range(ctx.n(1500, 12000)):
+        path = rng.choice(["foo/bar/baz", "/a/b/c", "a", "", "foo/ba", "x/y/", "/", "//a/b"]) if rng.random() < 0.6 else MG.rand_path(rng, 4)
+        cands = [""] + [path[:i] for i, c in enumerate(path) if c == "/"] + [path, path + "x", path[:-1], "baz", "foo/ba", "b", "/a", "foo/bar/bazz"]
+        bases = [rng.choice(cands) for _ in range(rng.choice([0, 1, 2, 3, 4, 5]))]
+        jobs.append(("basedir", [path] + bases, None))
+    for _ in range(ctx.n(1200, 10000)):
+        cwd = rng.choice(MG.CWDS)
+        top = rng.choice(["/r", "/r/x", "rel", "", "/", "a/b", "/r/./x"])
+        sub = rng.choice(["y", "y/z", "a.b", "é/q"])
+        deep = (top + "/" + sub) if top not in ("", "/") else top + sub
+        r = rng.random()
+        if r < 0.4:
+            old, base = top, deep
+        elif r < 0.8:
+            old, base = deep, top
+        elif r < 0.9:
+            old, base = top, top
+        else:
+            old, base = rng.choice(["/r", "/q/x", "rel"]), rng.choice(["/s", "/q/y", "other"])     # not nested
+        rel = rng.choice(["", "x", "x/", "y/z", "y/", "y", "../u", "./v/", sub, sub + "/f.ftl"]) if rng.random() < 0.7 else MG.clean_rel(rng)
+        jobs.append(("rebase", [old, base, rel], cwd))
+    return jobs
+
+
+def run_mozhelpers(ctx, out, rng):
+    jobs = _mp_jobs(ctx, rng)
+    calls = []
+    for fn, args, cwd in jobs:
+        if fn == "relpath.law":
+            calls.append(["relpath", args[:2], cwd])
+        else:
+            calls.append([fn, args, cwd])
+    res = pool.pmap("impl.matcher", "impl_mozpath", calls, timeout=5.0)
+    lines = []
+    for fn, args, cwd in calls:
+        pre = [cwd] if fn in ("relpath", "abspath", "rebase", "realpath") else []
+        lines.append("c12.mp.%s" % ("abspath" if fn == "realpath" else fn) + G.paths_arg(pre + list(args)))
+    model = C.run_driver_parallel(lines) if ctx.model_ok else [None] * len(lines)
+    for (fn, args, cwd), r, mo in zip(jobs, res, model):
+        out.evaluations += 1
+        inp = {"fn": fn, "args": args, "cwd": cwd, "class": "mozpath." + fn}
+        if "r" not in r:
+            out.violations.append({"what": "mozpath.%s%r: adapter failed: %s" % (fn, tuple(args), r.get("exc")), "input": inp, "op": "mp"})
+            continue
+        got, canon = r["r"]["raw"], r["r"]["canon"]
+        bad = mp_oracle(fn, args, cwd, got)
+        if bad:
+            for w in bad:
+                out.violations.append({"what": w, "input": inp, "op": "mp"})
+            continue
+        if mo is not None and mo != canon:
+            out.disagreements.append({"op": "c12.mp." + fn.split(".")[0], "input": inp, "impl": canon, "model": mo})
+        out.nontrivial.add(("mp", fn, tuple(args), cwd))
+        out.count("mozpath.%s%s" % (fn, ".raises" if E.is_exc(got) else ""))
+    if len(out.samples) < 12:
+        out.samples.append({"class": "mozpath", "normpath('a//./b/../c/')": "a/c", "basedir('foo/bar/baz', ['foo','baz','foo/bar'])": "foo/bar"})
+
+
+def mp_oracle(fn, args, cwd, got):
+    """what the docstrings of mozpath.py (and of the posixpath functions they wrap) promise, checked on the RESULT"""
+    exc = got.get("exc") if isinstance(got, dict) else None
+    if fn == "normsep":
+        return [] if got == args[0] else ["normsep(%r) = %r on a POSIX system" % (args[0], got)]
+    if fn == "normpath":
+        return MG.check_normpath(args[0], got)
+    if fn == "join":
+        return MG.check_join(args, got)
+    if fn == "split":
+        return MG.check_split(args[0], got) if exc is None else ["split raised %s" % exc]
+    if fn in ("dirname", "basename"):
+        p = args[0]
+        b = p[p.rfind("/") + 1:]
+        head = p[:len(p) - len(b)]
+        exp = b if fn == "basename" else (head if head == "/" * len(head) else head.rstrip("/"))
+        return [] if got == exp else ["%s(%r) = %r, expected %r" % (fn, p, got, exp)]
+    if fn == "splitext":
+        return MG.check_splitext(args[0], got[0], got[1]) if exc is None else ["splitext raised %s" % exc]
+    if fn == "commonprefix":
+        return MG.check_commonprefix(args, got)
+    if fn == "basedir":
+        return MG.check_basedir(args[0], args[1:], got)
+    if fn in ("abspath", "realpath"):
+        exp = _pp.normpath(_pp.join(cwd, args[0]))
+        return [] if got == exp else ["abspath(%r) under %r = %r, expected %r" % (args[0], cwd, got, exp)]
+    if fn in ("relpath", "relpath.law"):
+        p, st = args[0], args[1]
+        if p == "":
+            return [] if exc == "ValueError" else ["relpath('', %r) = %r, expected ValueError" % (st, got)]
+        if exc is not None:
+            return ["relpath(%r, %r) raised %s" % (p, st, exc)]
+        bad = []
+        if got == ".":
+            bad.append("relpath(%r, %r) = '.', the same directory must be reported as ''" % (p, st))
+        a_st, a_p = _pp.normpath(_pp.join(cwd, st)), _pp.normpath(_pp.join(cwd, p))
+        back = _pp.normpath(_pp.join(a_st, got))
+        if back != a_p and not (a_p.startswith("//") or a_st.startswith("//")):
+            bad.append("relpath(%r, %r) under %r = %r: start joined with it is %r, not the path %r" % (p, st, cwd, got, back, a_p))
+        if fn == "relpath.law":
+            q = args[2]
+            nq = MG.ref_normpath(q)
+            exp = "" if nq == "." else nq
+            if got != exp:
+                bad.append("relpath(join(%r, %r), %r) = %r, expected the normal form %r of the relative part" % (st, q, st, got, exp))
+        return bad
+    if fn == "rebase":
+        old, base, rel = args
+
+        def contains(outer, inner):
+            return outer == inner or outer == "" or inner.startswith(outer + "/")
+        if old == base:
+            return [] if got == rel else ["rebase(%r, %r, %r) = %r, expected the path unchanged" % (old, base, rel, got)]
+        shorter = len(base) < len(old)
+        nested = contains(base, old) if shorter else contains(old, base)
+        if not nested:
+            return [] if exc == "AssertionError" else ["rebase(%r, %r, %r) = %r for bases that are not nested" % (old, base, rel, got)]
+        if exc is not None:
+            if exc == "ValueError" and rel == "" and not shorter:
+                return []
+            return ["rebase(%r, %r, %r) raised %s" % (old, base, rel, exc)]
+        bad = []
+        a_old, a_base = _pp.normpath(_pp.join(cwd, old)), _pp.normpath(_pp.join(cwd, base))
+        want = _pp.normpath(_pp.join(a_old, rel))
+        have = _pp.normpath(_pp.join(a_base, got))
+        climbs = MG.ref_normpath(rel).startswith("..") or rel.startswith("/")
+        if climbs:
+            return bad      # a path that leaves its base: the result depends on the working directory (relpath), nothing is demanded
+        if want != have and not (a_old.startswith("//") or a_base.startswith("//")):
+            bad.append("rebase(%r, %r, %r) = %r names %r under the new base, the original is %r" % (old, base, rel, got, have, want))
+        if rel.endswith("/") != got.endswith("/") and rel != "":
+            bad.append("rebase(%r, %r, %r) = %r: the trailing slash is not kept" % (old, base, rel, got))
+        return bad
+    return ["unknown function %s" % fn]
+
+
 # excluded points of the hypotheses of C12.expand_match_star_partial (separator / value shapes): the real code is
 # run there and compared with the model (the Lean witnesses star_separator_witness, wildcard_value_witness are decided
 # on the model); the generic laws still apply, nothing else is demanded (two stars in one segment are outside the grammar)
@@ -371,7 +655,10 @@ def run(ctx):
     run_specs(ctx, out, [G.gen_wild(rng) for _ in range(ctx.n(15000, 150000))], "wild", generic_laws)
     run_specs(ctx, out, [dict(s) for s in SEPARATOR_PROBES], "probe.separator", generic_laws)
     run_android(ctx, out)
+    run_android_general(ctx, out, ctx.rng("c12", "android-general"))
     run_moz(ctx, out, ctx.rng("c12", "moz"))
+    run_mozhelpers(ctx, out, ctx.rng("c12", "mp"))
+    E.run_round4(ctx, out, ctx.rng("c12", "r4"))
     return out
 
 
@@ -383,6 +670,8 @@ def replay(payload):
             res.extend(E.replay({"violations": [v]})["cases"])
         elif v.get("op") == "sequence":
             res.append(E.replay_sequence(i))
+        elif v.get("op") == "derive":
+            res.append(E.replay_derive(i))
         elif v.get("op") == "spec":
             r = pool.pmap("impl.matcher", "impl_matcher", [[{k: i[k] for k in ("pat", "env", "root", "with", "paths")}]], timeout=10.0)[0]
             bad = generic_laws(i, r["r"]) if "r" in r else [("crash", None)]
